@@ -207,6 +207,13 @@ func svSeqs(alpha int, n int) [][]int {
 }
 
 func TestC12(t *testing.T) {
+	shard, nShards, child := svSharded(t, "TestC12", 12, func(idx int, wedged bool) string {
+		return fmt.Sprintf("C12Dead %s", coqBool(wedged))
+	})
+	if !child {
+		return
+	}
+	want := func(idx int) bool { return want(idx) && idx%nShards == shard }
 	em := NewEmitter()
 	defer em.Close()
 	idx := 0
@@ -259,10 +266,7 @@ func TestC12(t *testing.T) {
 	}
 
 	// ---- every envelope sequence over the alphabet, each followed by the probe
-	maxLen := 2
-	if thorough() {
-		maxLen = 3
-	}
+	maxLen := 3
 	nAlpha := len(svAlphabet(1, 2, 3, 0))
 	for _, seq := range svSeqs(nAlpha, maxLen) {
 		var frames []*FrameSpec
@@ -275,6 +279,19 @@ func TestC12(t *testing.T) {
 		}
 		frames = append(frames, svProbe(901))
 		run("seq", frames, tags)
+	}
+
+	// ---- thorough: a seeded sample of the sequences of length 4
+	if thorough() {
+		for i := 0; i < 20000; i++ {
+			rnd := newRand(int64(40000 + i))
+			var frames []*FrameSpec
+			for pos := 0; pos < 4; pos++ {
+				frames = append(frames, svAlphabet(1, 2, 3, int64(100*(pos+1)))[rnd.Intn(nAlpha)])
+			}
+			frames = append(frames, svProbe(906))
+			run("seq", frames, []string{"sampled", "len=4"})
+		}
 	}
 
 	// ---- random longer sequences
@@ -342,6 +359,62 @@ func TestC12(t *testing.T) {
 					return nil
 				}
 				runWalk("abandon", svDrainProbe(script, svProbe(904)), []string{"abandon", fmt.Sprintf("unconsumed=%d", k), "first:" + first})
+			}
+		}
+	}
+
+	// ---- leftovers: a handler returns with k messages unconsumed; then another stream is opened (same or other id)
+	// whose handler reads: it must see its own messages only
+	for k := 0; k <= 2; k++ {
+		for _, last := range []string{"body", "close", "emptybody"} {
+			for _, sameID := range []bool{false, true} {
+				for _, late := range []bool{false, true} {
+					id2 := uint64(2)
+					if sameID {
+						id2 = 1
+					}
+					mk := func(id uint64, b *int64, trl bool) *FrameSpec {
+						f := &FrameSpec{Id: id, Hdr: "ok:0", Method: mBidi, Src: "src", Dst: "dst", Body: b}
+						if trl {
+							f.Status, f.Trl = &[2]int64{0, 0}, "ok:0"
+						}
+						return f
+					}
+					acts := []SAct{{Op: "deliver", F: mk(1, nil, false)}}
+					for j := 0; j < k; j++ {
+						switch {
+						case j == k-1 && last == "close":
+							acts = append(acts, SAct{Op: "deliver", F: mk(1, nil, true)})
+						case j == k-1 && last == "emptybody":
+							acts = append(acts, SAct{Op: "deliver", F: mk(1, i64(0), false)})
+						default:
+							acts = append(acts, SAct{Op: "deliver", F: mk(1, i64(int64(700+j)), false)})
+						}
+					}
+					acts = append(acts, SAct{Op: "hstep", H: 0, Hop: &HopSpec{Op: "return", Err: "status", Code: 3, Msg: 9}})
+					if late {
+						// a message of the finished call that was still in flight
+						b := int64(730)
+						if last == "emptybody" {
+							b = 0
+						}
+						acts = append(acts, SAct{Op: "deliver", F: mk(1, &b, false)})
+					}
+					acts = append(acts, SAct{Op: "deliver", F: mk(id2, nil, false)})
+					acts = append(acts, SAct{Op: "hstep", H: 1, Hop: &HopSpec{Op: "recv"}})
+					acts = append(acts, SAct{Op: "deliver", F: mk(id2, i64(750), false)})
+					acts = append(acts, SAct{Op: "hstep", H: 1, Hop: &HopSpec{Op: "recv"}})
+					acts = append(acts, SAct{Op: "deliver", F: mk(id2, nil, true)})
+					pos := 0
+					script := func(r *svRig, step int) *SAct {
+						if pos < len(acts) {
+							pos++
+							return &acts[pos-1]
+						}
+						return nil
+					}
+					runWalk("leftover", svDrainProbe(script, svProbe(907)), []string{"leftover", fmt.Sprintf("unconsumed=%d", k), "last:" + last, fmt.Sprintf("sameid=%v", sameID), fmt.Sprintf("late=%v", late)})
+				}
 			}
 		}
 	}
